@@ -364,6 +364,17 @@ def case_linspace(ctx, inp):
             if not np.allclose(exact, np.asarray(e, dtype="f8"), rtol=0, atol=tol):
                 ctx.disagree("linspace: Lean exact values vs NumPy", exact.tolist(), np.asarray(e).tolist())
         ctx.branch("linspace:int-endpoints")
+    fa, fb = (float(pa), float(pb)) if all(isinstance(v, (int, float)) for v in (pa, pb)) else (None, None)
+    if fa is not None and e.dtype == np.dtype("f8") and num <= 200 and np.isfinite(fb - fa) and np.isfinite(e).all():
+        # function level: the binary64 model of da.linspace / chunk.linspace_block, bit for bit
+        m = ctx.lean(Sym("linspace_f"), _f2p(fa), _f2p(fb), num, ep, cs)
+        ctx.eq("linspace_f: step = (stop - start) / div in binary64", _p2frac(m[0]), Fraction(float(rstep)))
+        blocks = [[Fraction(float(v)) for v in np.asarray(r.blocks[i].compute(scheduler="sync"))] for i in range(len(cs))]
+        mb = [[_p2frac(v) for v in blk] for blk in m[1]]
+        if mb != blocks:
+            ctx.disagree("linspace_f: block values (binary64, bit for bit)", [[float(v) for v in blk] for blk in mb],
+                         [[float(v) for v in blk] for blk in blocks])
+        ctx.branch("linspace:f64-model-diffed")
     if len(cs) > 1:
         ctx.branch("linspace:multi-block")
     if not ep:
